@@ -33,3 +33,21 @@ def replay(ur, scratch, seed):
     exe = N.build_driver("native/spaces_native.cpp", scratch, link_ompl=True, unit_cpps=SP_CPPS)
     r = C.run_cmd([exe, "search", str(seed), "400000", "c07"], 600, env=N.run_env())
     return dict(found=(r["rc"] == 1), driver="native/spaces_native.cpp", args=["search", seed, 400000, "c07"], link_ompl=True, unit_cpps=SP_CPPS, output=r["out"][-2500:])
+
+# ---------------------------------------------------------------- Mobius strip: distance and interpolate agree on the seam branch
+MOB = "src/ompl/base/spaces/special/src/MobiusStateSpace.cpp"
+MOB_RULES = [
+    (r"(?:state1|from)->as<MobiusStateSpace::StateType>\(\)->getU\(\)", "U1", 0), (r"(?:state2|to)->as<MobiusStateSpace::StateType>\(\)->getU\(\)", "U2", 0),
+    (r"(?:state1|from)->as<MobiusStateSpace::StateType>\(\)->getV\(\)", "V1", 0), (r"(?:state2|to)->as<MobiusStateSpace::StateType>\(\)->getV\(\)", "V2", 0),
+    (r"state->as<MobiusStateSpace::StateType>\(\)->getU\(\)", "U_OUT", 0), (r"state->as<MobiusStateSpace::StateType>\(\)->setV\(r\);", "SET_V(r);", 0),
+    (r"CompoundStateSpace::distance\(state1, state2\)", "COMPOUND_DISTANCE()", 0), (r"CompoundStateSpace::interpolate\(from, to, t, state\);", "COMPOUND_INTERPOLATE(t);", 0),
+    (r"(?:const )?auto \*c\w+ = static_cast<(?:const )?CompoundState \*>\(\w+\);", "", 0),
+    (r"weights_\[0\] \* components_\[0\]->distance\(cstate1->components\[0\], cstate2->components\[0\]\)", "SO2_WEIGHTED_DISTANCE()", 0),
+    (r"components_\[0\]->interpolate\(cfrom->components\[0\], cto->components\[0\], t, cstate->components\[0\]\);", "SO2_INTERPOLATE(t);", 0),
+    (r"std::abs\(", "fabs(", 0), (r"std::sqrt\(", "sqrt(", 0),
+]
+UNITS.append(dict(name="c07_mobius_seam_branch", template="spaces/mobius.c", mode="plain", entry="h_mobius", flags=["--bounds-check", "--pointer-check"], level="proof", backend="cadical", timeout=600,
+                  functions=["MobiusStateSpace::distance", "MobiusStateSpace::interpolate"],
+                  sources=[dict(name="m_distance", file=MOB, sig=r"double MobiusStateSpace::distance\(const State \*state1, const State \*state2\) const", rules=MOB_RULES, loops={}),
+                           dict(name="m_interpolate", file=MOB, sig=r"void MobiusStateSpace::interpolate\(const State \*from, const State \*to, double t, State \*state\) const", rules=MOB_RULES, loops={})],
+                  canaries=[dict(name="strict_seam_test_in_interpolate_only", where="body:m_interpolate", rx=r"if \(fabs\(diff\) <= pi\)", repl="if (fabs(diff) < pi)")]))
